@@ -102,9 +102,11 @@ func (c *c16ctx) runStep(lg *ledgerkit.Ledger, sc string, st scStep, b *types.Bl
 		last = res
 	}
 	if st.Expect == "ok" && c.proc == "A" {
+		// a transaction the scenario author expected to succeed failed: that is recorded, not an infrastructure error
+		// (failing the same way every time is no C16 matter; the digests are what is compared)
 		for i, n := range last.Notify {
 			if n.State != event.CONTRACT_STATE_SUCCESS {
-				vio.Fatal("scenario %s step %s: transaction %d failed at build time (scenario is broken)", sc, st.Label, i)
+				vio.Emit(map[string]interface{}{"unexpected_failure": true, "scen": sc, "label": st.Label, "tx": i})
 			}
 		}
 	}
@@ -260,8 +262,13 @@ func (c *c16ctx) createNative() (scenario, int64) {
 	lg, err := ledgerkit.Open(ldir, accts, true)
 	vio.Must(err)
 	n := &natCtx{lg: lg, accts: accts, nonce: 9 << 24}
+	var blockTime *uint32 // nil: the synthetic default (genesis time + height)
 	add := func(label string, commit bool, wall, expect string, txs ...*types.Transaction) {
-		b := lg.Build(txs, nil)
+		var opts *ledgerkit.BlockOpts
+		if blockTime != nil {
+			opts = &ledgerkit.BlockOpts{Timestamp: blockTime}
+		}
+		b := lg.Build(txs, opts)
 		st := scStep{Label: label, Commit: commit, Wall: wall, Expect: expect, Block: blockHex(b), Reps: nativeReps}
 		sc.Steps = append(sc.Steps, st)
 		c.runStep(lg, sc.Name, st, b)
@@ -410,10 +417,32 @@ func (c *c16ctx) createNative() (scenario, int64) {
 	add("ccm:import-bsc", true, "", "ok", imp(1))
 	add("ccm:import-bsc-replayed", false, "", "", imp(2))
 
+	// wall clock against contract time constants: block timestamps anchored at the real current time so that a constant is
+	// straddled between the executions of process A and the later ones.  The only contract path that reads GetTime() is
+	// the fee vote round (UPDATE_FEE_TIMEOUT = 300 s): the round on chain 2 is opened by a block dated
+	// T0 = now - (300 s - 5 s); the second vote comes in a block dated T0 + 1 s.  By block time the round is 1 s old
+	// whenever the block is executed; by the wall clock it is 295 s old in process A and more than 300 s old afterwards.
+	feeVote := func(a *account.Account, fee int64) *types.Transaction {
+		p := &scm.UpdateFeeParam{Address: a.Address, ChainId: 2, View: 0, Fee: big.NewInt(fee)}
+		return n.tx(utils.SideChainManagerContractAddress, scm.UPDATE_FEE, ser(p.Serialization), a)
+	}
+	now0 := time.Now().Unix()
+	t0 := uint32(now0 - (int64(scm.UPDATE_FEE_TIMEOUT) - feeStraddle))
+	blockTime = &t0
+	add("sc:fee-round-opened-at-now-295s", true, "", "ok", feeVote(accts[0], 40))
+	t1 := t0 + 1
+	blockTime = &t1
+	add("sc:fee-second-vote-straddling-timeout", false, "native:sc:fee-second-vote-straddling-timeout", "ok", feeVote(accts[1], 60))
+	blockTime = nil
+	notBefore0 := now0 + feeStraddle + 2
+
 	// wall clock: headers dated in the future, executed now and (by the other processes) a few seconds later.
 	// bsc accepts header.Time <= now; eth accepts header.Time <= now + 15 s.
 	now := time.Now().Unix()
 	notBefore := now + futureDelta + 2
+	if notBefore0 > notBefore {
+		notBefore = notBefore0
+	}
 	h203 := bc.next(uint64(now + futureDelta))
 	add("wall:bsc-header-dated-now+4s", false, "bsc", "", syncHdr(6, hdrJSON(h203)))
 	now = time.Now().Unix()
@@ -427,6 +456,9 @@ func (c *c16ctx) createNative() (scenario, int64) {
 }
 
 const futureDelta = 4
+
+// seconds left, when the scenario is built, until the open fee vote round is UPDATE_FEE_TIMEOUT old by the wall clock
+const feeStraddle = 5
 
 // every native-contract block is executed at least this often in each process: records serialised from Go maps show an
 // order dependence only across iterations
